@@ -9,6 +9,8 @@ e = {"property": prop, "kind": kind, "harness": harness, "label": label, "what":
 if kind == "fixed":
     e["commit"] = sys.argv[6]
     e["line"] = f"fixed: property={prop} {sys.argv[6]} {what}"
+else:
+    e["line"] = f"KNOWN-FINDING: property={prop} {what}"
 kf = [k for k in kf if not (k["property"] == prop and k["harness"] == harness and k["label"] == label)]
 kf.append(e)
 json.dump(kf, open(f, "w"), indent=1)
